@@ -123,6 +123,9 @@ func classify(v interface{}) string {
 		if len(x) == 0 {
 			return "empty-array"
 		}
+		if len(x) > 1000 {
+			return "wide-array"
+		}
 		return "array"
 	case map[string]interface{}:
 		if len(x) == 0 {
@@ -132,6 +135,9 @@ func classify(v interface{}) string {
 			for k := range x {
 				return "key-" + keyClass(k)
 			}
+		}
+		if len(x) > 1000 {
+			return "wide-object"
 		}
 		return "object"
 	}
@@ -191,6 +197,24 @@ func roundTrip(v interface{}) (string, string) {
 func minimise(v interface{}) interface{} {
 	switch x := v.(type) {
 	case []interface{}:
+		if len(x) > 64 { // wide value: the shortest prefix that still fails
+			lo, hi := 0, len(x) // prefix of length lo passes (or is empty), of length hi fails
+			for hi-lo > 1 {
+				mid := (lo + hi) / 2
+				if k, _ := roundTrip(x[:mid]); k != "" {
+					hi = mid
+				} else {
+					lo = mid
+				}
+			}
+			if hi < len(x) {
+				return minimise(x[:hi:hi])
+			}
+			if k, _ := roundTrip(x[len(x)-1]); k != "" {
+				return minimise(x[len(x)-1])
+			}
+			return v
+		}
 		for _, e := range x {
 			if k, _ := roundTrip(e); k != "" {
 				return minimise(e)
@@ -484,6 +508,13 @@ func main() {
 		g.value([]interface{}{})
 		g.value(map[string]interface{}{})
 		g.value([]interface{}{[]interface{}{}, map[string]interface{}{}})
+		// wide and shallow: more containers in one document than the parser's nesting limit
+		wide := jx.Wide(10001)
+		for _, k := range []string{"sibling-arrays", "sibling-objects", "mixed", "table", "fan-out", "object-of-arrays", "object-of-objects"} {
+			g.value(wide[k])
+			rep.Count("val:wide:" + k)
+		}
+		g.value(jx.Wide(9999)["table"])
 		for i := 0; i < nleaf; i++ {
 			switch g.r.Intn(3) {
 			case 0:
